@@ -18,11 +18,49 @@ import (
 )
 
 const (
-	verifDir   = "/verif"
+	verifDir = "/verif"
+	srcDir   = "/verif/harness/src"
+)
+
+// repoDir / harnessDir: the tree under check. VERIF_REPO selects another copy of the repository (a scratch
+// worktree used to evaluate seeded changes in parallel); a temporary harness module with replace directives
+// pointing there is generated for it.
+var (
 	repoDir    = "/repo"
 	harnessDir = "/verif/harness"
-	srcDir     = "/verif/harness/src"
+	tmpHarness string
+	outDir     = "/verif" // evidence/ and replays/ go here
 )
+
+func setupRepo() {
+	alt := os.Getenv("VERIF_REPO")
+	if alt == "" || alt == "/repo" {
+		return
+	}
+	repoDir = alt
+	dir, err := os.MkdirTemp("", "gosym-harness-")
+	if err != nil {
+		fmt.Fprintln(os.Stderr, err)
+		os.Exit(2)
+	}
+	tmpHarness = dir
+	gm, _ := os.ReadFile("/verif/harness/go.mod")
+	os.WriteFile(filepath.Join(dir, "go.mod"), []byte(strings.ReplaceAll(string(gm), "=> /repo/", "=> "+alt+"/")), 0o644)
+	gs, _ := os.ReadFile("/verif/harness/go.sum")
+	os.WriteFile(filepath.Join(dir, "go.sum"), gs, 0o644)
+	harnessDir = dir
+	if o := os.Getenv("VERIF_OUT"); o != "" {
+		outDir = o
+	} else {
+		outDir = filepath.Join(dir, "out")
+	}
+}
+
+func cleanupRepo() {
+	if tmpHarness != "" {
+		os.RemoveAll(tmpHarness)
+	}
+}
 
 // harnessSpec is parsed from a `//verif:h key=value ...` line directly above a harness function.
 type harnessSpec struct {
@@ -241,6 +279,7 @@ func loadProgram(specs []*harnessSpec, extraTags ...string) (*gosym.Program, err
 		return nil, err
 	}
 	p.LoadSeconds = time.Since(start).Seconds()
+	p.RepoDir = repoDir
 	return p, nil
 }
 
@@ -340,8 +379,8 @@ func writeEvidenceFailure(prop, tier string, seed int, why string, wall time.Dur
 		"wall_s":   wall.Seconds(), "violations": 0,
 	}
 	b, _ := json.MarshalIndent(ev, "", " ")
-	os.MkdirAll(filepath.Join(verifDir, "evidence"), 0o755)
-	os.WriteFile(filepath.Join(verifDir, "evidence", prop+".json"), b, 0o644)
+	os.MkdirAll(filepath.Join(outDir, "evidence"), 0o755)
+	os.WriteFile(filepath.Join(outDir, "evidence", prop+".json"), b, 0o644)
 }
 
 func conclude(prop, tier string, seed int, prog *gosym.Program, results []*checkResult, start time.Time) int {
@@ -490,8 +529,8 @@ func conclude(prop, tier string, seed int, prog *gosym.Program, results []*check
 		"assumptions": assumptionsFor(prop), "wall_s": time.Since(start).Seconds(), "violations": totalViol,
 	}
 	b, _ := json.MarshalIndent(ev, "", " ")
-	os.MkdirAll(filepath.Join(verifDir, "evidence"), 0o755)
-	if err := os.WriteFile(filepath.Join(verifDir, "evidence", prop+".json"), b, 0o644); err != nil {
+	os.MkdirAll(filepath.Join(outDir, "evidence"), 0o755)
+	if err := os.WriteFile(filepath.Join(outDir, "evidence", prop+".json"), b, 0o644); err != nil {
 		fmt.Fprintln(os.Stderr, "cannot write evidence:", err)
 		return 2
 	}
@@ -523,7 +562,7 @@ func assumptionsFor(prop string) []string {
 }
 
 func writeReplay(prop string, h *harnessSpec, v *gosym.Violation) string {
-	dir := filepath.Join(verifDir, "replays", prop)
+	dir := filepath.Join(outDir, "replays", prop)
 	os.MkdirAll(dir, 0o755)
 	sum := sha256.Sum256([]byte(h.Func + "|" + v.Label))
 	path := filepath.Join(dir, fmt.Sprintf("%s_%x.json", h.Func, sum[:4]))
